@@ -23,6 +23,7 @@ package props
 
 import (
 	"bytes"
+	"encoding/json"
 	"fmt"
 	"io"
 	"os"
@@ -251,6 +252,21 @@ func c19RunChild(c *lab.Ctx, cwd, cfgPath, dumpOut, outDir string) (status, deta
 	return fmt.Sprintf("exit-%d", code), tail()
 }
 
+// c19RunChildRetry: Mosn.Init starts the admin-store services of the configuration (e.g. the pprof server of
+// "pprof":{"debug":true}) and fails when their port is taken by a concurrently running check. That is an accident
+// of the environment, not a property of the configuration: retry, then give up as inconclusive ("port-clash").
+func c19RunChildRetry(c *lab.Ctx, cwd, cfgPath, dumpOut, outDir string) (status, detail string) {
+	for try := 0; try < 5; try++ {
+		status, detail = c19RunChild(c, cwd, cfgPath, dumpOut, outDir)
+		if !(status == "init-error" && strings.Contains(detail, "address already in use")) {
+			return
+		}
+		c.Count("port-clash-retries", 1)
+		time.Sleep(time.Duration(200*(try+1)) * time.Millisecond)
+	}
+	return "port-clash", detail
+}
+
 // c19ReasonClass turns a loader message into a short stable class for the counters.
 func c19ReasonClass(detail string) string {
 	d := detail
@@ -266,15 +282,150 @@ func c19ReasonClass(detail string) string {
 	return d
 }
 
+// c19SystemCase takes one configuration file (already placed at cfgPath inside a private directory) through
+// load → dump/persist → reload → dump in two child processes and applies the system-level oracles.
+// status: "ok" (judged), "not-loadable" (the first child did not accept the input; detail says why), "inconclusive".
+func c19SystemCase(c *lab.Ctx, node *c19Node, id int, label, cfgPath, confDir, caseDir string, orig []byte, isYAML bool, dirs []c19DynDir) (status, detail string, k3 *c19Leaf) {
+	dump1 := filepath.Join(caseDir, "dump1.json")
+	dump2 := filepath.Join(caseDir, "dump2.json")
+	st, detail := c19RunChildRetry(c, confDir, cfgPath, dump1, filepath.Join(caseDir, "child1"))
+	if st == "watchdog" || st == "spawn" || st == "port-clash" {
+		c.Inconclusive("child " + st)
+		return "inconclusive", st, nil
+	}
+	if st != "ok" {
+		return "not-loadable", st + ": " + c19ReasonClass(detail), nil
+	}
+	c.Eval(1)
+	wit := func(extra map[string]interface{}) map[string]interface{} {
+		w := map[string]interface{}{"case": id, "config": label, "run_dir": caseDir}
+		if len(orig) < 6000 && !isYAML {
+			w["input"] = json.RawMessage(orig)
+		}
+		for k, v := range extra {
+			w[k] = v
+		}
+		return w
+	}
+	d1b, _ := os.ReadFile(dump1)
+	d1, err := c19Parse(d1b)
+	if err != nil {
+		c.Violation("dump-is-json", "C19/MOSNConfig/dump-not-json", "dump of "+label+" is not JSON: "+err.Error(), wit(nil))
+		return "ok", "", nil
+	}
+	report := func(rule string, k *c19Leaf, what string) {
+		seen := map[string]bool{}
+		for _, f := range k.findings {
+			sig := c19SigOf(f)
+			if seen[sig] {
+				continue
+			}
+			seen[sig] = true
+			c.Violation(rule, sig, fmt.Sprintf("%s: %s at %s: %s → %s%s (config %s)", what, f.Field, f.FPath, c19J(f.In), c19J(f.Out), c19Sep(f.Detail), label),
+				wit(map[string]interface{}{"path": f.FPath, "dump_path": f.DPath, "before": f.In, "after": f.Out, "class": f.Class}))
+		}
+	}
+	snap1 := c19SnapDirs(dirs)
+
+	// (a) the persisted file carries the same configuration as the dump handed over on hot upgrade
+	persisted, _ := os.ReadFile(cfgPath)
+	if bytes.Equal(persisted, orig) {
+		c.Violation("dump-persisted", "C19/MOSNConfig/dump-not-persisted", "the dump action did not rewrite the configuration file of "+label, wit(nil))
+		return "ok", "", nil
+	}
+	pj := persisted
+	if isYAML {
+		if pj, err = yaml.YAMLToJSON(persisted); err != nil {
+			c.Violation("dump-loadable", "C19/MOSNConfig/yaml-dump-not-loadable", "persisted YAML dump of "+label+" is not YAML: "+err.Error(), wit(nil))
+			return "ok", "", nil
+		}
+	}
+	pv, err := c19Parse(pj)
+	if err != nil {
+		c.Violation("dump-is-json", "C19/MOSNConfig/dump-not-json", "persisted dump of "+label+" is not JSON: "+err.Error(), wit(nil))
+		return "ok", "", nil
+	}
+	c19SortNamed(d1)
+	c19SortNamed(pv)
+	if !isYAML && c19Canon(pv) != c19Canon(d1) { // YAML re-spells numbers; the reload below judges it by value
+		k := &c19Leaf{system: true, seen: map[string]struct{}{}}
+		k.walk(node, nil, false, d1, pv, true, "$", "$", nil)
+		k.walk(node, nil, false, pv, d1, true, "$", "$", nil)
+		if len(k.findings) == 0 {
+			c.Violation("persisted-equals-dump", "C19/MOSNConfig/persisted-differs-from-dump", "persisted file and hot-upgrade dump of "+label+" differ", wit(nil))
+		}
+		report("persisted-equals-dump", k, "persisted file differs from the hot-upgrade dump")
+	}
+
+	// (b) restart from the persisted dump
+	st2, detail2 := c19RunChildRetry(c, confDir, cfgPath, dump2, filepath.Join(caseDir, "child2"))
+	if st2 == "watchdog" || st2 == "spawn" || st2 == "port-clash" {
+		c.Inconclusive("child " + st2)
+		return "inconclusive", st2, nil
+	}
+	if st2 != "ok" {
+		c.Violation("dump-loadable", "C19/MOSNConfig/dump-not-loadable",
+			fmt.Sprintf("the persisted dump of the accepted configuration %s is rejected on reload (%s): %s", label, st2, detail2),
+			wit(map[string]interface{}{"reason": detail2, "dump_head": c19Trunc(persisted, 3000)}))
+		return "ok", "", nil
+	}
+	d2b, _ := os.ReadFile(dump2)
+	d2, err := c19Parse(d2b)
+	if err != nil {
+		c.Violation("dump-is-json", "C19/MOSNConfig/dump-not-json", "second dump of "+label+" is not JSON: "+err.Error(), wit(nil))
+		return "ok", "", nil
+	}
+	c19SortNamed(d2)
+	snap2 := c19SnapDirs(dirs)
+	if c19Canon(d1) != c19Canon(d2) {
+		k := &c19Leaf{system: true, seen: map[string]struct{}{}}
+		k.walk(node, nil, false, d1, d2, true, "$", "$", nil)
+		k.walk(node, nil, false, d2, d1, true, "$", "$", nil)
+		if len(k.findings) == 0 {
+			c.Violation("second-dump-equals-first", "C19/MOSNConfig/second-dump-differs", "second dump of "+label+" differs from the first", wit(map[string]interface{}{"d1": c19Trunc(d1b, 2000), "d2": c19Trunc(d2b, 2000)}))
+		}
+		report("second-dump-equals-first", k, "second dump differs from the first dump")
+	}
+	if c19Canon(snap1) != c19Canon(snap2) {
+		c.Violation("second-dump-equals-first", "C19/MOSNConfig/second-dump-differs/dynamic-directory", "the cluster/router directories written by the second dump of "+label+" differ from those of the first",
+			wit(map[string]interface{}{"dirs1": snap1, "dirs2": snap2}))
+	}
+
+	// (c) every understood input value is in the first dump
+	fj := orig
+	if isYAML {
+		fj, _ = yaml.YAMLToJSON(orig)
+	}
+	fv, err := c19Parse(fj)
+	if err != nil {
+		return "ok", "", nil
+	}
+	k := &c19Leaf{system: true, seen: map[string]struct{}{}}
+	k.walk(node, nil, false, fv, d1, true, "$", "$", nil)
+	for _, d := range dirs {
+		var fld *c19Field
+		if d.Kind == "clusters" {
+			fld = c19NodeOf(reflect.TypeOf(v2.ClusterManagerConfig{})).c19FindField("clusters")
+		} else {
+			fld = c19NodeOf(reflect.TypeOf(v2.RouterConfiguration{})).c19FindField("virtual_hosts")
+		}
+		fItems, _ := c19Parse(c19MustJSON(d.Items))
+		fa, _ := fItems.([]interface{})
+		k.walkNamed(fld.Node, fld, "name", fa, c19DirItems(snap1, d), "$dir("+filepath.Base(d.Path)+")", "$dir("+filepath.Base(d.Path)+")")
+	}
+	c.Count("leaf-values-checked", int64(k.leaves))
+	report("input-value-in-dump", k, "input value not reproduced by the dump of the effective configuration")
+	return "ok", "", k
+}
+
 func c19Samples(c *lab.Ctx) {
-	c.Rule("system level: every *.json/*.yaml/*.yml under configs/ and examples/ (sharded over the batches); per file two child processes run the real init path (Load, DefaultInitStage, Mosn.Init, HandleExtendConfig; no listener started): load → dump (InheritMosnconfig) and persist (DumpConfig) → reload the persisted file → dump; oracles: norm(second dump)==norm(first dump) with the name-keyed lists sorted, persisted file ≡ first dump, every input value at a path the struct tags understand present with equal value in the first dump; files the loader does not accept are listed as not-loadable; distinct = (sample file, set of schema fields present)")
+	c.Rule("system level, samples: every *.json/*.yaml/*.yml under configs/ and examples/ (sharded over the batches); per file two child processes run the real init path (Load, DefaultInitStage, Mosn.Init, HandleExtendConfig; no listener started): load → dump (InheritMosnconfig) and persist (DumpConfig) → reload the persisted file → dump; oracles: norm(second dump)==norm(first dump) with the name-keyed lists sorted, persisted file ≡ first dump, every input value at a path the struct tags understand present with equal value in the first dump; files the loader does not accept are listed as not-loadable; distinct = (sample file, set of schema fields present)")
 	files := c19SampleFiles()
 	repo := os.Getenv("VERIF_REPO")
 	if repo == "" {
 		repo = "/repo"
 	}
-	root := c19Roots[0]
-	node := c19NodeOf(root.Type)
+	node := c19NodeOf(c19Roots[0].Type)
 	replay := c.ReplayCase()
 	outAbs, _ := filepath.Abs(c.Out)
 	c.Count("sample-files", 0)
@@ -312,131 +463,31 @@ func c19Samples(c *lab.Ctx) {
 			continue
 		}
 		isYAML := filepath.Ext(p) != ".json"
-		dump1 := filepath.Join(caseDir, "dump1.json")
-		dump2 := filepath.Join(caseDir, "dump2.json")
-		st, detail := c19RunChild(c, confDir, cfgPath, dump1, filepath.Join(caseDir, "child1"))
-		if st == "watchdog" || st == "spawn" {
-			c.Inconclusive("child " + st)
-			c.Count("not-loadable["+st+"]: "+rel, 1)
-			continue
-		}
-		if st != "ok" {
+		before := c.Violations()
+		st, detail, k := c19SystemCase(c, node, si, rel, cfgPath, confDir, caseDir, orig, isYAML, nil)
+		switch st {
+		case "not-loadable":
 			c.Count("samples-not-loadable", 1)
-			c.Count("not-loadable["+st+": "+c19ReasonClass(detail)+"]: "+rel, 1)
-			continue
-		}
-		loadable++
-		c.Count("samples-loadable", 1)
-		c.Eval(1)
-		d1b, _ := os.ReadFile(dump1)
-		d1, err := c19Parse(d1b)
-		if err != nil {
-			c.Violation("dump-is-json", "C19/MOSNConfig/dump-not-json", "dump of "+rel+" is not JSON: "+err.Error(), map[string]interface{}{"case": si, "sample": rel})
-			continue
-		}
-		wit := func(extra map[string]interface{}) map[string]interface{} {
-			w := map[string]interface{}{"case": si, "sample": rel, "run_dir": caseDir}
-			for k, v := range extra {
-				w[k] = v
-			}
-			return w
-		}
-		report := func(rule string, k *c19Leaf, what string) {
-			seen := map[string]bool{}
-			for _, f := range k.findings {
-				sig := c19SigOf(f)
-				if seen[sig] {
-					continue
+			c.Count("not-loadable["+detail+"]: "+rel, 1)
+		case "inconclusive":
+			c.Count("not-judged["+detail+"]: "+rel, 1)
+		case "ok":
+			loadable++
+			c.Count("samples-loadable", 1)
+			if k != nil {
+				c.Distinct(rel + "|" + c19ShapeString(k.seen))
+				if loadable <= 2 {
+					c.Sample(map[string]interface{}{"sample": rel, "leaf_values_checked": k.leaves})
 				}
-				seen[sig] = true
-				c.Violation(rule, sig, fmt.Sprintf("%s: %s at %s: %s → %s%s (sample %s)", what, f.Field, f.FPath, c19J(f.In), c19J(f.Out), c19Sep(f.Detail), rel),
-					wit(map[string]interface{}{"path": f.FPath, "dump_path": f.DPath, "before": f.In, "after": f.Out, "class": f.Class}))
 			}
 		}
-
-		// (a) the persisted file carries the same configuration as the dump handed over on hot upgrade
-		persisted, _ := os.ReadFile(cfgPath)
-		if bytes.Equal(persisted, orig) {
-			c.Violation("dump-persisted", "C19/MOSNConfig/dump-not-persisted", "the dump action did not rewrite the configuration file of "+rel, wit(nil))
-			continue
-		}
-		pj := persisted
-		if isYAML {
-			if pj, err = yaml.YAMLToJSON(persisted); err != nil {
-				c.Violation("dump-loadable", "C19/MOSNConfig/yaml-dump-not-loadable", "persisted YAML dump of "+rel+" is not YAML: "+err.Error(), wit(nil))
-				continue
-			}
-		}
-		pv, err := c19Parse(pj)
-		if err != nil {
-			c.Violation("dump-is-json", "C19/MOSNConfig/dump-not-json", "persisted dump of "+rel+" is not JSON: "+err.Error(), wit(nil))
-			continue
-		}
-		c19SortNamed(d1)
-		c19SortNamed(pv)
-		if !isYAML && c19Canon(pv) != c19Canon(d1) { // YAML re-spells numbers; the reload below judges it by value
-			k := &c19Leaf{system: true, seen: map[string]struct{}{}}
-			k.walk(node, nil, false, d1, pv, true, "$", "$", nil)
-			k.walk(node, nil, false, pv, d1, true, "$", "$", nil)
-			if len(k.findings) == 0 {
-				c.Violation("persisted-equals-dump", "C19/MOSNConfig/persisted-differs-from-dump", "persisted file and hot-upgrade dump of "+rel+" differ", wit(nil))
-			}
-			report("persisted-equals-dump", k, "persisted file differs from the hot-upgrade dump")
-		}
-
-		// (b) restart from the persisted dump
-		st2, detail2 := c19RunChild(c, confDir, cfgPath, dump2, filepath.Join(caseDir, "child2"))
-		if st2 == "watchdog" || st2 == "spawn" {
-			c.Inconclusive("child " + st2)
-			continue
-		}
-		if st2 != "ok" {
-			c.Violation("dump-loadable", "C19/MOSNConfig/dump-not-loadable",
-				fmt.Sprintf("the persisted dump of the accepted sample %s is rejected on reload (%s): %s", rel, st2, detail2),
-				wit(map[string]interface{}{"reason": detail2, "dump_head": c19Trunc(persisted, 3000)}))
-			continue
-		}
-		d2b, _ := os.ReadFile(dump2)
-		d2, err := c19Parse(d2b)
-		if err != nil {
-			c.Violation("dump-is-json", "C19/MOSNConfig/dump-not-json", "second dump of "+rel+" is not JSON: "+err.Error(), wit(nil))
-			continue
-		}
-		c19SortNamed(d2)
-		if c19Canon(d1) != c19Canon(d2) {
-			k := &c19Leaf{system: true, seen: map[string]struct{}{}}
-			k.walk(node, nil, false, d1, d2, true, "$", "$", nil)
-			k.walk(node, nil, false, d2, d1, true, "$", "$", nil)
-			if len(k.findings) == 0 {
-				c.Violation("second-dump-equals-first", "C19/MOSNConfig/second-dump-differs", "second dump of "+rel+" differs from the first", wit(map[string]interface{}{"d1": c19Trunc(d1b, 2000), "d2": c19Trunc(d2b, 2000)}))
-			}
-			report("second-dump-equals-first", k, "second dump differs from the first dump")
-		}
-
-		// (c) every understood input value is in the first dump
-		fj := orig
-		if isYAML {
-			fj, _ = yaml.YAMLToJSON(orig)
-		}
-		fv, err := c19Parse(fj)
-		if err == nil {
-			k := &c19Leaf{system: true, seen: map[string]struct{}{}}
-			k.walk(node, nil, false, fv, d1, true, "$", "$", nil)
-			c.Count("leaf-values-checked", int64(k.leaves))
-			report("input-value-in-dump", k, "input value not reproduced by the dump of the effective configuration")
-			c.Distinct(rel + "|" + c19ShapeString(k.seen))
-			if loadable <= 2 {
-				c.Sample(map[string]interface{}{"sample": rel, "leaf_values_checked": k.leaves, "dump_bytes": len(d1b)})
-			}
-		}
-		if c.Violations() == 0 {
+		if c.Violations() == before {
 			_ = os.RemoveAll(caseDir)
 		}
 	}
 	if c.Violations() == 0 {
 		_ = os.RemoveAll(tree)
 	}
-	_ = reflect.TypeOf(v2.MOSNConfig{})
 	if replay < 0 {
 		c.Require("sample configurations loaded", loadable >= 2, fmt.Sprintf("%d of %d sample files of this batch loadable", loadable, mine))
 	}
